@@ -59,8 +59,13 @@ def cases(rng, tier):
             block = 4096  # tiny blocks over megabytes only cost time
         if chunk and chunk < 100 and total > 150000:
             chunk = 1000
+        volume = rng.choice(VOLUMES) if target == "mv" else None
+        if volume and total // volume > 5000:
+            # volume files are numbered .0001 .. .9999: an archive of more volumes than that cannot be put together
+            # again by the volume reader (nor by this check's own concatenation)
+            volume = 4096
         out.append(dict(members=mem, chain=ch, password=pw, header=header, target=target, entry=rng.choice(ENTRIES),
-                        block=block, chunk=chunk, volume=(rng.choice(VOLUMES) if target == "mv" else None)))
+                        block=block, chunk=chunk, volume=volume))
     # I/O blocks of 1..4 bytes (a first read shorter than what a decoder needs to start), every chain family once;
     # and volume sizes that put a volume boundary at each of the first bytes of the second session's folder
     small = [c for c in chains if len(c) <= 2 and not any(x["f"] == "AES" for x in c)]
